@@ -730,6 +730,7 @@ func TestProp(t *testing.T) {
 		kit.Clause[squeezeCase]{Name: "C05/squeeze/laws", Quick: 20000, Thorough: 500000, Gen: genSqueeze, Check: checkSqueeze},
 		kit.Clause[conjCase]{Name: "C05/conj/solid", Quick: 10000, Thorough: 250000, Gen: func(t *rapid.T) conjCase { return genConj(t, false) }, Check: checkConjSolid},
 		kit.Clause[conjCase]{Name: "C05/conj/collider", Quick: 4000, Thorough: 100000, Gen: func(t *rapid.T) conjCase { return genConj(t, true) }, Check: checkConjCollider},
+		kit.Clause[conj2Case]{Name: "C05/conj/collider2d", Quick: 4000, Thorough: 100000, Gen: genConj2, Check: checkConjCollider2},
 		kit.Clause[conjCase]{Name: "C05/conj/metaball", Quick: 10000, Thorough: 250000, Gen: func(t *rapid.T) conjCase {
 			c := genConj(t, rapid.Bool().Draw(t, "dist"))
 			if !c.X.IsDist() {
